@@ -537,4 +537,129 @@ theorem listStacks_declared (verArg : Str) (tags : List Str) (all : List (List D
           simp only [h1] at h
           exact ih (i + 1) mid out' hdrop' (listStack_declared verArg tags all i st hget out mid hout h1) h
 
+/-! ## with tags: every declared version that carries a requested tag and passes the version argument is listed -/
+
+/-- what one stack contributes: nothing is lost, and its versions that pass and carry a requested tag are there -/
+theorem listStack_tagged (verArg : Str) (tags : List Str) (all : List (List Decl)) (i : Nat) (st : List Decl)
+    (out out' : List (Nat × Str)) (h : listStack verArg tags all i st out = .ok (some out')) :
+    (∀ p ∈ out, p ∈ out') ∧
+    ∀ d ∈ st, (∀ d' ∈ st, d'.ver = d.ver → d' = d) → Passes verArg d.ver → tags ≠ [] → d.tags.any tags.contains = true →
+      (i, d.ver) ∈ out' := by
+  simp only [listStack] at h
+  cases h1 : lexPairs (st.map (·.ver)) with
+  | error e => simp only [h1] at h; simp at h
+  | ok allPs =>
+    simp only [h1] at h
+    cases h2 : (if verArg.isEmpty = true then (Except.ok (some (st.map (·.ver))) : Except Err (Option (List Str)))
+        else filterVers verArg (st.map (·.ver))) with
+    | error e => simp only [h2] at h; simp at h
+    | ok ov =>
+      cases ov with
+      | none => simp only [h2] at h; simp at h
+      | some vers =>
+        have hvers : ∀ d ∈ st, Passes verArg d.ver → d.ver ∈ vers := by
+          intro d hd hp
+          by_cases he : verArg.isEmpty = true
+          · simp only [he, if_true, Except.ok.injEq, Option.some.injEq] at h2
+            subst h2
+            exact List.mem_map_of_mem (f := fun x : Decl => x.ver) hd
+          · simp only [he, Bool.false_eq_true, if_false] at h2
+            have hne : verArg ≠ [] := by intro e; subst e; simp at he
+            rcases hp with hp | hp
+            · exact absurd hp hne
+            · exact (filterVers_spec verArg _ vers h2 d.ver).mpr ⟨List.mem_map_of_mem (f := fun x : Decl => x.ver) hd, hp⟩
+        simp only [h2] at h
+        cases h3 : lexPairs vers with
+        | error e => simp only [h3] at h; simp at h
+        | ok ps =>
+          simp only [h3, Except.ok.injEq, Option.some.injEq] at h
+          subst h
+          obtain ⟨hmap, _⟩ := lexPairs_spec h3
+          have hsorted : ∀ v ∈ vers, v ∈ (sortVers ps).map (·.1) := by
+            intro v hv
+            rw [← hmap] at hv
+            obtain ⟨y, hy, rfl⟩ := List.mem_map.mp hv
+            exact List.mem_map_of_mem (f := fun x : Str × Lexed => x.1) ((mem_sortVers y ps).mpr hy)
+          refine ⟨fun p hp => by simp only [List.mem_append]; exact Or.inl (Or.inl (Or.inl hp)), ?_⟩
+          intro d hd huniq hpass hne hcar
+          have hin := hsorted d.ver (hvers d hd hpass)
+          have hfind : st.find? (fun x => x.ver == d.ver) = some d := by
+            cases hf : st.find? (fun x => x.ver == d.ver) with
+            | none =>
+              have := List.find?_eq_none.mp hf d hd
+              simp at this
+            | some d' =>
+              have h1' := List.mem_of_find?_eq_some hf
+              have h2' : d'.ver = d.ver := by simpa using List.find?_some hf
+              rw [huniq d' h1' h2']
+          have hemp : tags.isEmpty = false := by cases tags <;> simp_all
+          simp only [hemp, Bool.false_eq_true, if_false, List.mem_append]
+          -- is this version the stack's latest (listed at the end) or not (listed in its place)?
+          split
+          · rename_i l heq
+            by_cases hl : l = d.ver
+            · right; subst hl
+              have hc : (List.map (fun (x : Str × Lexed) => x.fst) (sortVers ps)).contains d.ver = true := by simpa using hin
+              rw [if_pos hc]
+              exact List.mem_singleton.mpr rfl
+            · left; right
+              refine List.mem_map.mpr ⟨d.ver, List.mem_filter.mpr ⟨hin, ?_⟩, rfl⟩
+              have : (some l == some d.ver) = false := by simpa using hl
+              simp_all
+          · rename_i heq
+            left; right
+            refine List.mem_map.mpr ⟨d.ver, List.mem_filter.mpr ⟨hin, ?_⟩, rfl⟩
+            simp_all
+
+theorem listStacks_tagged (verArg : Str) (tags : List Str) (all : List (List Decl)) (rest : List (List Decl)) :
+    ∀ (i : Nat) (out out' : List (Nat × Str)), listStacks verArg tags all i rest out = .ok (some out') →
+    (∀ p ∈ out, p ∈ out') ∧
+    ∀ j st, rest[j]? = some st → ∀ d ∈ st, (∀ d' ∈ st, d'.ver = d.ver → d' = d) → Passes verArg d.ver → tags ≠ [] →
+      d.tags.any tags.contains = true → (i + j, d.ver) ∈ out' := by
+  induction rest with
+  | nil =>
+    intro i out out' h
+    simp only [listStacks, Except.ok.injEq, Option.some.injEq] at h
+    subst h
+    exact ⟨fun p hp => hp, by intro j st hj; simp at hj⟩
+  | cons st rest ih =>
+    intro i out out' h
+    simp only [listStacks] at h
+    by_cases hst : st.isEmpty = true
+    · simp only [hst, if_true] at h
+      have hnil : st = [] := by simpa using hst
+      obtain ⟨m1, m2⟩ := ih (i + 1) out out' h
+      refine ⟨m1, ?_⟩
+      intro j st' hj d hd
+      cases j with
+      | zero => simp only [List.getElem?_cons_zero, Option.some.injEq] at hj; subst hj; subst hnil; simp at hd
+      | succ j =>
+        simp only [List.getElem?_cons_succ] at hj
+        intro a b c e
+        have := m2 j st' hj d hd a b c e
+        have e2 : i + (j + 1) = i + 1 + j := by omega
+        rw [e2]; exact this
+    · simp only [hst, Bool.false_eq_true, if_false] at h
+      cases h1 : listStack verArg tags all i st out with
+      | error e => simp [h1] at h
+      | ok oo =>
+        cases oo with
+        | none => simp [h1] at h
+        | some mid =>
+          simp only [h1] at h
+          obtain ⟨s1, s2⟩ := listStack_tagged verArg tags all i st out mid h1
+          obtain ⟨m1, m2⟩ := ih (i + 1) mid out' h
+          refine ⟨fun p hp => m1 p (s1 p hp), ?_⟩
+          intro j st' hj d hd a b c e
+          cases j with
+          | zero =>
+            simp only [List.getElem?_cons_zero, Option.some.injEq] at hj
+            subst hj
+            exact m1 _ (s2 d hd a b c e)
+          | succ j =>
+            simp only [List.getElem?_cons_succ] at hj
+            have := m2 j st' hj d hd a b c e
+            have e2 : i + (j + 1) = i + 1 + j := by omega
+            rw [e2]; exact this
+
 end EupsModel.VersionCmp
